@@ -43,8 +43,8 @@ EXPECTED_PROBES = {
     "thorough": ["restored_state_dict", "restored_pickle", "restored_deepcopy", "dirty_target", "lockstep_observation", "rollback_compared", "crash_in_eval_with_caches", "crash_in_training", "copy_independence_checked"],
 }
 EXACT_FAMS = ["default", "default", "kissgp", "sgpr", "rff", "multitask", "hadamard", "grid"]
-OPS_EXACT = {"predict": 5.0, "train": 0.7, "eval": 0.7, "train_steps": 1.5, "set_train_data": 1.0, "perturb": 0.8, "backward": 0.5, "prior_predict": 0.5, "objective": 0.8, "train_call": 0.4, "fantasize": 0.3}
-OPS_VAR = {"predict": 5.0, "train": 0.7, "eval": 0.7, "train_steps": 1.8, "perturb": 0.8, "prior_predict": 0.5, "objective": 0.8, "kl": 0.6, "train_call": 0.8, "set_train_data": 0.4, "fantasize": 0.3}
+OPS_EXACT = {"sub_mode": 0.5, "predict": 5.0, "train": 0.7, "eval": 0.7, "train_steps": 1.5, "set_train_data": 1.0, "perturb": 0.8, "backward": 0.5, "prior_predict": 0.5, "objective": 0.8, "train_call": 0.4, "fantasize": 0.3}
+OPS_VAR = {"sub_mode": 0.5, "predict": 5.0, "train": 0.7, "eval": 0.7, "train_steps": 1.8, "perturb": 0.8, "prior_predict": 0.5, "objective": 0.8, "kl": 0.6, "train_call": 0.8, "set_train_data": 0.4, "fantasize": 0.3}
 
 
 def generate(rng, tier, index):
@@ -285,10 +285,22 @@ def restore(out, i, src_live, op, recipe, tol, phase):
         if op["double"]:
             new.load_state_dict(torch.load(io.BytesIO(data)))
     except Exception as e:  # noqa
-        out.violate("restore_failed", i, "load_state_dict into a freshly constructed model of the same architecture raised %s(%s)" % (type(e).__name__, str(e)[:200]), **cls)
+        msg = str(e)
+        if op["target"] == "dirty" and isinstance(e, RuntimeError) and ("Missing key(s)" in msg or "Unexpected key(s)" in msg):
+            # the target has a life of its own: it may hold (or lack) a lazily created buffer that the snapshot lacks (or
+            # holds), e.g. RFF weights of a kernel built without num_dims.  torch rejects the load explicitly; there is
+            # no restored model to judge.  (Into a FRESH target this is a violation, see below.)
+            out.stats["probe:dirty_target_strict_key_mismatch"] += 1
+            return None
+        out.violate("restore_failed", i, "load_state_dict into a freshly constructed model of the same architecture raised %s(%s)" % (type(e).__name__, msg[:200]), **cls)
         return None
-    # mode is not durable state: the user puts the restored model in the mode they need
+    # modes are not durable state: the user puts the restored model (and any submodule that was switched on its own)
+    # into the modes of the original; parents first, so that children end up with their own flags
     driver.set_mode(restored, src.training)
+    src_modes = dict((n, m.training) for n, m in src.named_modules())
+    for n, m in new.named_modules():
+        if n in src_modes and m.training != src_modes[n]:
+            m.train(src_modes[n])
     out.stats["probe:restored_state_dict"] += 1
     return restored
 
@@ -549,7 +561,12 @@ def rollback_into(out, i, live, rec, recipe, fam):
         M.load_state_dict(sd)
         return True
     except Exception as e:  # noqa
-        out.violate("rollback_failed", i, "loading a save point into the live model raised %s(%s)" % (type(e).__name__, str(e)[:160]), family=fam)
+        msg = str(e)
+        if isinstance(e, RuntimeError) and ("Missing key(s)" in msg or "Unexpected key(s)" in msg):
+            # save point and live model differ in a lazily created buffer: an explicit strict-load rejection, nothing to judge
+            out.stats["probe:rollback_strict_key_mismatch"] += 1
+            return False
+        out.violate("rollback_failed", i, "loading a save point into the live model raised %s(%s)" % (type(e).__name__, msg[:160]), family=fam)
         return False
 
 
